@@ -35,6 +35,7 @@ AllFaults == {"none", "read",        \* the target cannot be read
               "fsize",               \* file-size limit: writes of new content fail
               "rename", "kill_rename",  \* rename fails / process killed before the rename
               "missing",             \* an extra argument names a path that does not exist (given before file f)
+              "stdoutfull",          \* standard output cannot be written to (it is full, or closed by the reader)
               "badpatch",            \* the patches are requested through a patch list (-P) that cannot be read
                                      \* (it is a directory, or holds a line longer than the line buffer)
               "rodir", "rodir_fsize"}  \* the directory is read-only for the (unprivileged) user: no temporary file can
@@ -61,15 +62,16 @@ FaultAt(p) == fault.f = cur /\ fault.p = p
 Init ==
   /\ kinds \in UNION {[1..n -> Kinds] : n \in 1..MaxFiles}
   /\ flags \in Flags
-  /\ fault \in {[f |-> 0, p |-> q] : q \in FaultPoints \cap {"none", "fsize", "rodir", "rodir_fsize", "badpatch"}}
-               \cup {[f |-> i, p |-> q] : i \in 1..Len(kinds), q \in FaultPoints \ {"none", "fsize", "missing", "rodir", "rodir_fsize", "badpatch"}}
+  /\ fault \in {[f |-> 0, p |-> q] : q \in FaultPoints \cap {"none", "fsize", "rodir", "rodir_fsize", "badpatch", "stdoutfull"}}
+               \cup {[f |-> i, p |-> q] : i \in 1..Len(kinds), q \in FaultPoints \ {"none", "fsize", "missing", "rodir", "rodir_fsize", "badpatch", "stdoutfull"}}
                \cup {[f |-> i, p |-> q] : i \in 1..(Len(kinds) + 1), q \in FaultPoints \cap {"missing"}}
   /\ cur = 1 /\ stage = "load"
   /\ disk = [i \in 1..Len(kinds) |-> "orig"]
   /\ stdout = <<>> /\ stderr = <<>> /\ errs = <<>> /\ rerrs = <<>>
   /\ touched = {} /\ nwrites = 0 /\ exit = -1
 
-Out(what) == stdout' = Append(stdout, [f |-> cur, what |-> what])
+StdoutFull == fault.p = "stdoutfull"
+Out(what) == stdout' = IF StdoutFull THEN stdout ELSE Append(stdout, [f |-> cur, what |-> what])
 Log(what) == IF flags.verbose THEN Out(what) ELSE UNCHANGED stdout
 Err(what) == errs' = Append(errs, [f |-> cur, what |-> what])
 NextFile  == cur' = cur + 1 /\ stage' = IF cur = N THEN "finish" ELSE "read"
@@ -120,12 +122,18 @@ Generated ==
 Apply ==
   /\ stage = "apply"
   /\ IF kinds[cur] \in {"match", "generated", "badresult"}
-     THEN /\ stage' = "format" /\ UNCHANGED <<cur, stdout, rerrs>>
+     THEN /\ stage' = "format" /\ UNCHANGED <<cur, stdout, rerrs, errs>>
      ELSE /\ rerrs' = IF kinds[cur] = "replaceerr" THEN Append(rerrs, [f |-> cur, what |-> "replace"]) ELSE rerrs
-          /\ stdout' = (IF flags.print THEN Append(stdout, [f |-> cur, what |-> "orig"]) ELSE stdout)
-                       \o (IF flags.verbose THEN <<[f |-> cur, what |-> "log"]>> ELSE <<>>)
+          \* (echoing the file fails when standard output cannot be written to: the error is collected like
+          \*  every other per-file error and the run goes on)
+          /\ IF StdoutFull
+             THEN /\ stdout' = stdout
+                  /\ errs' = IF flags.print THEN Append(errs, [f |-> cur, what |-> "stdout"]) ELSE errs
+             ELSE /\ stdout' = (IF flags.print THEN Append(stdout, [f |-> cur, what |-> "orig"]) ELSE stdout)
+                                \o (IF flags.verbose THEN <<[f |-> cur, what |-> "log"]>> ELSE <<>>)
+                  /\ errs' = errs
           /\ NextFile
-  /\ UNCHANGED <<kinds, flags, fault, disk, stderr, errs, touched, nwrites, exit>>
+  /\ UNCHANGED <<kinds, flags, fault, disk, stderr, touched, nwrites, exit>>
 
 \* format.Node never fails on these kinds; the result is re-parsed by
 \* imports.Process or, with --skip-import-processing, by go/parser
@@ -142,18 +150,24 @@ Bad == kinds[cur] = "badresult"
 EmitDiff ==
   /\ stage = "emit" /\ flags.diff
   /\ stderr' = Append(stderr, [f |-> cur, what |-> "desc"])
-  /\ stdout' = Append(stdout, [f |-> cur, what |-> IF Bad THEN "baddiff" ELSE "diff"])
-                \o (IF flags.verbose THEN <<[f |-> cur, what |-> "log"]>> ELSE <<>>)
+  /\ IF StdoutFull
+     THEN stdout' = stdout /\ errs' = Append(errs, [f |-> cur, what |-> "stdout"])
+     ELSE /\ stdout' = Append(stdout, [f |-> cur, what |-> IF Bad THEN "baddiff" ELSE "diff"])
+                        \o (IF flags.verbose THEN <<[f |-> cur, what |-> "log"]>> ELSE <<>>)
+          /\ errs' = errs
   /\ NextFile
-  /\ UNCHANGED <<kinds, flags, fault, disk, errs, rerrs, touched, nwrites, exit>>
+  /\ UNCHANGED <<kinds, flags, fault, disk, rerrs, touched, nwrites, exit>>
 
 EmitPrint ==
   /\ stage = "emit" /\ ~flags.diff /\ flags.print
   /\ stderr' = Append(stderr, [f |-> cur, what |-> "desc"])
-  /\ stdout' = Append(stdout, [f |-> cur, what |-> IF Bad THEN "badpatched" ELSE "patched"])
-                \o (IF flags.verbose THEN <<[f |-> cur, what |-> "log"]>> ELSE <<>>)
+  /\ IF StdoutFull
+     THEN stdout' = stdout /\ errs' = Append(errs, [f |-> cur, what |-> "stdout"])
+     ELSE /\ stdout' = Append(stdout, [f |-> cur, what |-> IF Bad THEN "badpatched" ELSE "patched"])
+                        \o (IF flags.verbose THEN <<[f |-> cur, what |-> "log"]>> ELSE <<>>)
+          /\ errs' = errs
   /\ NextFile
-  /\ UNCHANGED <<kinds, flags, fault, disk, errs, rerrs, touched, nwrites, exit>>
+  /\ UNCHANGED <<kinds, flags, fault, disk, rerrs, touched, nwrites, exit>>
 
 \* writeFileAtomic = CreateTemp; write; chmod; close; rename(tmp, target)
 \* A kill leaves the target as it was (and possibly a stray temporary file,
@@ -203,9 +217,9 @@ Processed(i) == ~Aborted /\ (i < cur \/ stage \in {"finish", "done"})
 C06_NoMatchNoEffect ==
   \A i \in 1..N : Unmatched(i) =>
       /\ disk[i] = "orig" /\ i \notin touched
-      /\ StderrOf(i) = <<>>
+      /\ (~StdoutFull => StderrOf(i) = <<>>)
       /\ StdoutOf(i) \in {<<>>, <<[f |-> i, what |-> "orig"]>>}
-      /\ (Processed(i) /\ kinds[i] = "nomatch" /\ flags.print => StdoutOf(i) = <<[f |-> i, what |-> "orig"]>>)
+      /\ (Processed(i) /\ kinds[i] = "nomatch" /\ flags.print /\ ~StdoutFull => StdoutOf(i) = <<[f |-> i, what |-> "orig"]>>)
       /\ (kinds[i] = "generated" \/ ~flags.print => StdoutOf(i) = <<>>)
 C06_ExitZero ==
   stage = "done" /\ (\A i \in 1..N : Unmatched(i) \/ kinds[i] = "match") /\ fault.p = "none" => exit = 0
@@ -245,6 +259,10 @@ Failed(i) == \/ kinds[i] \in {"unparseable", "replaceerr", "badresult"}
 \* a read-only directory alone: whether the file can still be updated is the implementation's
 \* choice (the statement demands neither); if it is not updated that must be reported
 MayFail(i) == fault.p = "rodir" /\ Written(i)
+\* files for which something is written to standard output in a dry run
+Emits(i) == /\ ~ReadFails(i)
+            /\ \/ (kinds[i] = "match" /\ (flags.diff \/ flags.print))
+               \/ (kinds[i] = "nomatch" /\ flags.print)
 C16_Reported ==
   stage = "done" =>
      /\ \A i \in 1..N : (Failed(i) /\ Processed(i)) => exit # 0 /\ StderrOf(i) # <<>>
@@ -253,8 +271,10 @@ C16_Reported ==
      /\ (fault.p = "missing" => exit # 0 /\ \E k \in 1..Len(stderr) : stderr[k].what = "enumerate")
      \* ... and so are patches that could not be loaded
      /\ (fault.p = "badpatch" => exit # 0 /\ \E k \in 1..Len(stderr) : stderr[k].what = "patchload")
+     \* when standard output cannot be written to, that is reported - and so is every other failure of the run
+     /\ (StdoutFull /\ (\E i \in 1..N : Processed(i) /\ Emits(i)) => exit # 0 /\ \E k \in 1..Len(stderr) : stderr[k].what = "stdout")
 C16_ExitZeroMeansAllDone ==
-  stage = "done" /\ exit = 0 => ~Aborted /\ \A i \in 1..N : Unmatched(i) \/ disk[i] \in {"patched", "badpatched"} \/ flags.diff \/ flags.print
+  stage = "done" /\ exit = 0 => ~Aborted /\ ~(StdoutFull /\ \E i \in 1..N : Emits(i)) /\ \A i \in 1..N : Unmatched(i) \/ disk[i] \in {"patched", "badpatched"} \/ flags.diff \/ flags.print
 \* an unparseable target does not change what happens to any other file
 C16_Isolation ==
   stage = "done" /\ ~Aborted =>
@@ -271,7 +291,7 @@ C18_OnlyThem ==
 \* ... a file without any marker is processed exactly as without the flag
 C18_PlainProcessed ==
   stage = "done" /\ ~Aborted =>
-     \A i \in 1..N : kinds[i] = "match" /\ ~Failed(i) /\ ~MayFail(i) =>
+     \A i \in 1..N : kinds[i] = "match" /\ ~Failed(i) /\ ~MayFail(i) /\ ~StdoutFull =>
         IF flags.diff THEN \E k \in 1..Len(stdout) : stdout[k] = [f |-> i, what |-> "diff"]
         ELSE IF flags.print THEN \E k \in 1..Len(stdout) : stdout[k] = [f |-> i, what |-> "patched"]
         ELSE disk[i] = "patched"
